@@ -8,7 +8,10 @@
        complete and undamaged.
    (2) The PROPERTY: Final(fs, hist) -- every block equals its image in the last transaction of the valid
        prefix that logged it unless a revoke record of that or a later transaction of the valid prefix cancels
-       it.  Final is computed from the history, never from the log.
+       it.  Final is computed from the history, never from the log.  "Afterwards the journal is empty":
+       JsbAfterOf(hist, jsb) -- s_start = 0 and s_sequence one past the transaction the valid prefix ends in
+       front of, so that no block left in the ring can be taken for a transaction of the next life of the log
+       (spec/Jbd2Gen.tla explores that next life).  Both front-ends must leave exactly this superblock.
    (3) RECOVER: transcription of e2fsck/recovery.c jbd2_journal_recover / do_one_pass (three passes, exact stop
        conditions, checksum schemes none / COMPAT_CHECKSUM (v1) / CSUM_V2 / CSUM_V3 abstracted to ok-bits and
        content identities, async commit, commit-time rule, wrap), and of the front-ends' journal release.
